@@ -105,7 +105,8 @@ impl Scenario for C11 {
     let mut all_left = false;
     for _ in 0..len {
       let a = match rng.weighted(&[5, 3, 6, 1, 1, if kind == Kind::Publish { 2 } else { 0 }, 3, 3]) {
-        0 if !all_left && ever < 4 => {
+        0 if (!all_left || rng.chance(1, 2)) && ever < 4 => {
+          all_left = false;
           live += 1;
           ever += 1;
           Act::Sub
@@ -189,6 +190,7 @@ impl Scenario for C11 {
     let mut trace = String::new();
     let mut n = 100i64;
     let mut emits_after_leave = 0u64;
+    let mut rejoined = 0u64;
     let period_ns = match case.src {
       Src::Interval(p) => p as u64 * MS,
       _ => 0,
@@ -198,8 +200,12 @@ impl Scenario for C11 {
     for a in &case.acts {
       match a {
         Act::Sub => {
-          if last_left_at.is_some() && case.kind == Kind::Share {
-            continue; // re-joining after everybody left is outside the statement
+          // a subscriber joining after everybody had left starts a new epoch: whatever
+          // the source still emits on the share's behalf must reach it (presence oracle)
+          if last_left_at.is_some() {
+            last_left_at = None;
+            left_time = None;
+            rejoined += 1;
           }
           let log = ProbeLog::new(false);
           let invoke = w.shared.stamp();
@@ -342,7 +348,7 @@ impl Scenario for C11 {
       nontrivial: nsubs >= 2 || last_left_at.is_some(),
       sim_ns: sim,
       steps: case.acts.len() as u64,
-      faults: vec![("emit_after_last_leave", emits_after_leave), ("last_subscriber_left_with_live_source", last_left_at.is_some() as u64)],
+      faults: vec![("emit_after_last_leave", emits_after_leave), ("subscribe_again_after_everybody_left", rejoined), ("last_subscriber_left_with_live_source", last_left_at.is_some() as u64)],
       reach: vec![("last_share_subscriber_left_with_source_live", (last_left_at.is_some() && terminal.is_none()) as u64)],
       resolved: None,
       sample,
@@ -464,6 +470,6 @@ pub fn check_def() -> PropertyCheck {
     scenarios: vec![Box::new(C11)],
     runs: (300_000, 25_000_000),
     rule: "case = publish | share (local and _threads) over a hot subject / cold synchronous source / interval on the simulated executor, with a subscription counter and a tap upstream, + history of <=12 acts (subscribe, unsubscribe k, emit, source complete/error, connect, run tasks, advance clock); non-trivial = >=2 subscribers or the last share subscriber left; distinct = distinct (case, behaviour) hashes",
-    assumptions: vec!["re-subscribing to a share() after every subscriber left is not generated (the statement is silent about it)"],
+    assumptions: vec!["a subscriber that joins a share() after everybody had left is judged only by the presence rule (it must receive what the source still emits on the share's behalf, as seen by the upstream tap)"],
   }
 }
